@@ -1,8 +1,9 @@
 CONSTANTS
   NInst = 2
   Regs = {1, 2}
-  OutSels = {0, 1, 2}
-  OutSelsRen = {0, 1}
+  OutSels = {0, 1, 2, 3}
+  OutSelsRen = {0, 1, 3}
+  OutSelsDose = {3}
   ReAdmin = "keep"
   Design = "repaired"
   MaxOps = 12
